@@ -30,10 +30,8 @@ def containsSub (pat : List Nat) : List Nat → Bool
   | [] => pat.isEmpty
   | b :: bs => isPrefix pat (b :: bs) || containsSub pat bs
 
-/-- `Header::get_title`: the 11 title bytes with trailing NULs trimmed (ASCII titles only in this stream) -/
-def titleBytes (hdr : Array Nat) : List Nat :=
-  let t := (hdr.toList.drop 0x34).take 11
-  (t.reverse.dropWhile (· == 0)).reverse
+/-- `Header::get_title`: the 11 title bytes decoded lossily, trailing NULs trimmed (`Header.titleText`) -/
+def titleBytes (hdr : Array Nat) : List Nat := Header.titleText ⟨fun i => hdr.getD i 0⟩
 
 def kindCode : HeaderSpec.Controller → Nat
   | .romOnly => 0 | .mbc1 => 1 | .mbc3 => 3 | _ => 99
@@ -73,7 +71,12 @@ def checkHdr (l : Line) : Verdict :=
     if mcart != cart then .modelDiff s!"cart model={mcart} impl={cart}"
     else if cart == "panic" && l.outS "pmsg" != "Unsupported_cart_type" then
       .modelDiff s!"panic message impl={l.outS "pmsg"}"
-    else .ok (valid || cart != "panic" || (HeaderSpec.romBanks? rc).isSome || (HeaderSpec.ramBytes? ac).isSome)
+    else if l.outS "title" == "panic" then
+      .specDiff "get_title panics on these title bytes: a file with this header and a matching checksum dies while the Loading line is printed"
+    else if (if l.outS "title" == "-" then [] else (parseBytes (l.outS "title")).toList) != titleBytes hdr then
+      .modelDiff s!"title model={titleBytes hdr} impl={l.outS "title"}"
+    else .ok (valid || cart != "panic" || (HeaderSpec.romBanks? rc).isSome || (HeaderSpec.ramBytes? ac).isSome
+              || ((hdr.toList.drop 0x34).take 11).any (· ≥ 0x80))   -- or a title that is not ASCII
 
 def fallbackLine : List Nat := bytesOfString "\nNo ROM, loading fallback\n"
 
@@ -92,6 +95,8 @@ def checkFile (l : Line) : Verdict :=
   -- classify the run
   let obs? : Option HeaderSpec.Observed :=
     if status.startsWith "sig:" then some .fault
+    -- a panic is controlled termination only where the code says `panic!`: the unsupported cartridge type
+    else if status == "exit:101" && !containsSub (bytesOfString "Unsupported cart type") err then some .fault
     else if status.startsWith "exit:" then some .rejected                       -- controlled termination
     else if status == "alive" && saysLoading then some .accepted
     else if status == "alive" && containsSub fallbackLine out then some .rejected  -- message, load_rom returned None
@@ -102,7 +107,7 @@ def checkFile (l : Line) : Verdict :=
   -- spec: the property on this run
   if !HeaderSpec.allowed rom (if missing then 0 else len) obs then
     (match obs with
-     | .fault => .specDiff s!"process killed by a signal ({status}) — spec: load-time rejection or clean run only"
+     | .fault => .specDiff s!"process killed by a signal or an unintended panic ({status}) — spec: load-time rejection or clean run only"
      | _ => .specDiff s!"file accepted although the property requires rejection (len={len}, declared={HeaderSpec.romBytes? (rom 0x148)}, checksumOk={HeaderSpec.checksumOk rom}, typeSupported={HeaderSpec.typeSupported (rom 0x147)})")
   else
   let specProbeBad :=
